@@ -1,6 +1,6 @@
 """Count campaigns: generate elections, run the implementation, run the model, evaluate the Lean oracles on both."""
 import re, collections
-import gen, implrun
+import gen, implrun, findings
 from common import pmap, run_driver_parallel
 
 ORACLE_RE = re.compile(r'MODEL (.*) ;; IMPL (.*) ;; SAME=(\d)$')
@@ -31,6 +31,16 @@ def make_cases(rng, n, rules, families=None, lowprec=0.0, equal_ranks=0.3, ratio
             # exact Meek is exponentially slow: keep these tiny
             p = gen.plain(rng, maxc=4, maxb=5)
             fam = 'plain-small'
+        if fam.startswith('blocs') and rule in ('meek', 'warren') and findings.meek_collapse_class(p, o):
+            # keep most huge-electorate cases inside the rules' numerical range (outside it: known findings M1/M2)
+            if rng.random() < 0.85:
+                o = dict(o); o['arithmetic'] = rng.choice(['fixed', 'guarded'])
+                o['precision'] = rng.choice([9, 12]) if o['arithmetic'] == 'fixed' else 9
+                if o['arithmetic'] == 'guarded':
+                    o['guard'] = 9
+                else:
+                    o.pop('guard', None)
+                o['omega'] = rng.choice([2, 3])
         if lp:
             fam += '+lowprec'
         cases.append((fam, p, o))
@@ -39,7 +49,7 @@ def make_cases(rng, n, rules, families=None, lowprec=0.0, equal_ranks=0.3, ratio
 
 def evaluate(cases, limit=20.0):
     """cases: [(family, profile, options)] -> [Result]"""
-    impl_lines = pmap(implrun.count_line, [(p, o) for _, p, o in cases], limit=limit)
+    impl_lines = pmap(implrun.count_line, [(p, o) for _, p, o in cases], limit=limit + 12.0)
     results = []
     ins = []
     for (fam, p, o), il in zip(cases, impl_lines):
